@@ -68,6 +68,16 @@ class _Worker:
         self.p.stdin.flush()
 
 
+def _limit(task, default):
+    """wall-clock limit of one worker task.  A task that carries a whole chunk of cases (a list of more than one case, spec,
+    run, history or sub-task) is bookkeeping of the harness, not a per-case cut-off: its limit is tripled (x VERIF_TIMEOUT_FACTOR)
+    so that a busy machine does not turn into 'worker failed'."""
+    lim = float(task.get("timeout", default))
+    if any(isinstance(task.get(k), list) and len(task[k]) > 1 for k in ("cases", "specs", "runs", "histories", "subs", "calls")):
+        lim *= 3.0 * float(os.environ.get("VERIF_TIMEOUT_FACTOR", "1"))
+    return lim
+
+
 def run_tasks(tasks, timeout=60, nworkers=None, stub=False, hashseed="0", extra_env=None, progress=None):
     """Run tasks (JSON-serialisable dicts with a 'fn' key naming a function of impl_worker)
     on the implementation; returns a list of results in order.  A task exceeding `timeout`
@@ -116,7 +126,7 @@ def run_tasks(tasks, timeout=60, nworkers=None, stub=False, hashseed="0", extra_
                         w.kill(); w.start()
                     if progress and done % progress == 0:
                         print("  ... %d/%d implementation runs" % (done, n), flush=True)
-                elif now - w.t0 > float(tasks[w.task].get("timeout", timeout)):
+                elif now - w.t0 > _limit(tasks[w.task], timeout):
                     results[w.task] = {"outcome": "Timeout"}
                     done += 1
                     w.kill(); w.start()
